@@ -146,6 +146,14 @@ def lifetime_rules(chk, F, an, tag):
             ops = t["args"]
         elif t["k"] == "assert" and t["msg"]["kind"] == "Overflow" and t["msg"].get("op") == "Mul":
             ops = [t["msg"]["a"], t["msg"]["b"]]
+        elif t["k"] == "call" and (core.callee_path(t) or "").split("::")[-1] == "fold" and len(t["args"]) == 3:
+            # `iter.fold(init, |acc, x| acc * x)`: a product of the initial value with every item
+            cl = core.op_place(t["args"][2])
+            cty = lt.locals[cl["local"]]["ty"] if cl else {}
+            cf = F.fns.get(cty.get("path")) if cty.get("k") == "closure" else None
+            if cf is not None and any((tt["k"] == "call" and (core.callee_path(tt) or "").split("::")[-1] in MUL_CALLS) or
+                                      (tt["k"] == "assert" and tt["msg"]["kind"] == "Overflow" and tt["msg"].get("op") == "Mul") for _, tt in cf.iter_terms()):
+                ops = [t["args"][1], t["args"][0]]
         if ops:
             muls.append((b, ops))
     chk.count("lifetime_multiplications", len(muls))
@@ -196,7 +204,7 @@ def lossy_rules(chk, F, an_ia, an, entries, tag):
             continue
         f = F.fns[fp]
         n += 1
-        permitted = kind.startswith("saturating_") and fp == lt.path and ty == ret_ty
+        permitted = kind.startswith("saturating_") and (fp == lt.path or fp.startswith(lt.path + "::{closure")) and ty == ret_ty
         chk.ob("S5.no-silent-loss", "%s|%s|%s%s" % (f.key, kind, ty, tag), permitted,
                "in %s a %s producing %s can lose value: the exact result ranges over %s but the type holds %s "
                "(a count that silently saturates / wraps / truncates below the 64-bit result makes the selected leaves or the reported lifetime wrong for large key shapes)"
